@@ -108,8 +108,7 @@ def delta (old new : List String) : List String :=
     if o == n then none else some s!"{name}={n}"
 
 /-- bodies used by the harness, by `c / 1000`: `probe c; st 7`, `probe c; return 3`,
-    `probe c; exit 4`, `probe c; false`, `probe c; : ${U?}` (an expansion error: `Interrupt`, with
-    `$?` still what it was on entry) -/
+    `probe c; exit 4`, `probe c; false`, `probe c; : ${U?}` (an expansion error: `Interrupt(Some(2))`) -/
 def body7 : Body := fun c e t =>
   (match c / 1000 with
    | 1 => { exit := 0, divert := some (.ret (some 3)) }
@@ -159,12 +158,13 @@ def dstep (st : State) : DOp → State
     { st with traps := (runTrapsAfterPoll body7 false (polledBy st sig) st.traps e).traps }
 
 /-- Spec verdict for a `run`: the bodies run followed by the bodies still pending are exactly the
-    bodies that were pending, once each (whatever the bodies end in); `$?` is preserved; a run not
-    cut short by a divert leaves nothing pending -/
+    bodies that were pending, once each (whatever the bodies end in); `$?` is preserved, except that
+    an error interrupting an action leaves its own status; a run not cut short by a divert leaves
+    nothing pending -/
 def runVerdict (st : State) (e : Nat) : Option String :=
   let r := runTrapsForCaughtSignals body7 false st.traps e
   if r.runs ++ pendingCommands r.traps ≠ pendingCommands st.traps then some "runs"
-  else if r.exit ≠ (e : Int) then some "exit-status"
+  else if r.exit ≠ (match r.divert with | some (.interrupt (some x)) => x | _ => (e : Int)) then some "exit-status"
   else if r.divert = none ∧ pendingCommands r.traps ≠ [] then some "left-pending"
   else none
 
@@ -428,8 +428,8 @@ def tbSend (s : TB) (sig : Nat) : TB :=
   match delivery s.st sig with
   | .caught => { s with st := deliver s.st sig }
   | .ignored => s
-  | .effect .terminate => { s with ended := some "sig" }
-  | .effect .suspend => { s with ended := some "stop" }
+  | .effect .terminate => { s with ended := some s!"sig{sig}" }
+  | .effect .suspend => { s with ended := some s!"stop{sig}" }
   | .effect _ => s
 
 def actionText (a : String) : Option String :=
@@ -523,8 +523,9 @@ def tbStmt (k : Nat) (s : TB) (ws : List String) : Option TB :=
     let sigs ← sigs.mapM parseAnySig
     -- `wait` installs the internal SIGCHLD disposition first; the child then sends the signals
     let s0 : TB := { s with st := enableChld s.st, exit := 0 }
+    -- (VirtualSystem records the last fatal signal even if the process was already terminated by an
+    --  earlier one: the child keeps sending, so the fold does not stop at the first fatal signal)
     let (s1, caught) := sigs.foldl (fun (acc : TB × List Nat) sig =>
-      if acc.1.ended.isSome then acc else
       match delivery acc.1.st sig with
       | .caught => (tbSend acc.1 sig, acc.2 ++ [sig])
       | _ => (tbSend acc.1 sig, acc.2)) (s0, [])
